@@ -119,8 +119,9 @@ class RootDataset(KDDataset):
     (several wrappers mutate in place).  y/source/target items mirror x for the generic transform wrappers.
     `clobber` maps an access number (per process copy) to (which, seed): foreign code reseeding a global RNG (fault F8)."""
 
-    def __init__(self, kind, size, n_classes=3, clobber=None, ctx_tags=False, ds_id=0, **kw):
+    def __init__(self, kind, size, n_classes=3, clobber=None, ctx_tags=False, ds_id=0, fail_at=(), **kw):
         super().__init__(**kw)
+        self.fail_at = set(fail_at)
         self.ctx_tags = ctx_tags
         self.ds_id = ds_id
         self.kind = kind
@@ -137,6 +138,8 @@ class RootDataset(KDDataset):
         import numpy as np
         c = self.clobber.get(self.accesses)
         self.accesses += 1
+        if self.accesses in self.fail_at:
+            raise InjectedReadError(5, f"injected read error at access {self.accesses}")
         if c is not None:
             which, seed = c
             if which == "py":
@@ -194,12 +197,18 @@ class RootDataset(KDDataset):
         return [self.getitem_class(i) for i in range(self.size)]
 
 
+class InjectedReadError(OSError):
+    """a transient I/O error of the storage behind a root dataset (fault injected by the harness)"""
+
+
 class PlainTorchDataset(torch.utils.data.Dataset):
     """an ordinary torch dataset returning (x, class) tuples - the thing TorchWrapper adapts"""
 
-    def __init__(self, size, n_classes=3):
+    def __init__(self, size, n_classes=3, fail_at=()):
         self.size = size
         self.n_classes = n_classes
+        self.fail_at = set(fail_at)
+        self.accesses = 0
 
     def __len__(self):
         return self.size
@@ -208,6 +217,9 @@ class PlainTorchDataset(torch.utils.data.Dataset):
         idx = int(idx)
         if not 0 <= idx < self.size:
             raise IndexError(idx)
+        self.accesses += 1
+        if self.accesses in self.fail_at:
+            raise InjectedReadError(5, f"injected read error at access {self.accesses} (sample {idx})")
         return ((torch.arange(3 * 16 * 16).float().view(3, 16, 16) * (idx + 2)) % 23) / 23, (idx * 7 + 1) % self.n_classes
 
 
